@@ -1,6 +1,7 @@
 // C18: prolongation is exact on the coarse space; restriction is its transpose; truncation is a left inverse;
 // matrix-free prolongation == assembled matrix; permuted meshes and the global/muxed transfer give the same functions.
-// Targets: one per cell shape (+ "-big" variants with larger meshes for the thorough tier) and "global".
+// Targets: one per cell shape (+ "-big" variants with larger meshes for the thorough tier), "global" (control-layer
+// assembly into Global::Transfer, muxer) and "cfmap" (CoarseFineCellMapping on structured meshes).
 #include "c18_parts.hpp"
 #include <kernel/runtime.hpp>
 using namespace vf;
@@ -43,5 +44,6 @@ int main(int argc, char** argv)
   tg.push_back({"tetra-big", [](Tape& t, Ctx& c) { dispatch(t, c, cat_tetra, true); }, 96, 5, 60000});
   tg.push_back({"global", [](Tape& t, Ctx& c) { c18::global_case(t, c, false); }, 64, 4, 20000});
   tg.push_back({"global-big", [](Tape& t, Ctx& c) { c18::global_case(t, c, true); }, 96, 5, 60000});
+  tg.push_back({"cfmap", [](Tape& t, Ctx& c) { c18::cfmap_case(t, c); }, 48, 1, 20000});
   return main_impl(argc, argv, tg);
 }
